@@ -609,10 +609,12 @@ theorem encodeUrl_userinfo (e : Env) (sc : Str) (user pw usr pw' : Option Str) (
     exact isEmpty_false (makeNetloc_ne_nil _ _ _ ph.ne none)
   have hn91 : mem 91 (makeNetloc (q e Gen.QUOTER) usr pw' (some h) none false) = false :=
     NetlocLemmas.mem_false_iff.mpr (fun hm => (hauth.chars 91 hm).2.2.2.2.2.2.1 rfl)
+  have hn91' : mem 91 (rpartition 64 (makeNetloc (q e Gen.QUOTER) usr pw' (some h) none false)).2.2 = false :=
+    ParseLemmas.mem_rpartition_snd_snd_false hn91
   unfold encodeUrl
   rw [splitUrl_auth e.o sc _ rp rf vs hauth h35 h63 hc1 hc2]
   simp only [bind, Except.bind, pure, Except.pure, hnlne, Bool.false_eq_true, ↓reduceIte, h64,
-    Bool.or_true, Bool.true_or, hsplit, encodeHost_plain e.o h false ph, hnn, h91, hn91, Bool.false_and,
+    Bool.or_true, Bool.true_or, hsplit, encodeHost_plain e.o h false ph, hnn, h91, hn91', Bool.false_and,
     requoteOpt_human e user usr hu hq1, requoteOpt_human e pw pw' hw hq2',
     ← makeNetloc_encode (q e Gen.QUOTER) (q_nil e _), List.isEmpty_cons, Bool.not_false,
     Bool.true_and, List.isEmpty_nil, hbne]
